@@ -135,7 +135,11 @@ def prev_blocks_global(function: "Function", block: "BasicBlock") -> List["Basic
         return []
     if block.is_sub_return_point:
         # if the block is the return point of the subroutine, return all retsub blocks of the subroutine
-        return block.callsub_block.called_subroutine.retsub_blocks
+        # and the blocks which jump to this block.
+        callsub_block = block.callsub_block
+        return callsub_block.called_subroutine.retsub_blocks + [
+            bi for bi in block.prev if bi != callsub_block
+        ]
     # if its a normal block return previous blocks in the CFG.
     return block.prev
 
